@@ -49,6 +49,10 @@ pub(crate) struct DhtHandler {
     refresh: TableRefresh,
     // Ongoing TableLookups.
     lookups: HashMap<ActionID, TableLookup>,
+    // Lookups requested before the first bootstrap attempt has concluded. They are started once
+    // it has (see `MainlineDht::search`).
+    queued_lookups: Vec<StartLookup>,
+    first_bootstrap_concluded: bool,
 }
 
 impl DhtHandler {
@@ -99,6 +103,8 @@ impl DhtHandler {
             bootstrap_txs: HashMap::new(),
             refresh: table_refresh,
             lookups: HashMap::new(),
+            queued_lookups: Vec::new(),
+            first_bootstrap_concluded: false,
         }
     }
 
@@ -138,6 +144,7 @@ impl DhtHandler {
                 if self.is_bootstrapped() {
                     self.handle_bootstrap_success().await;
                 }
+                self.handle_first_bootstrap_conclusion().await;
             }
             message = self.socket.recv() => {
                 match message {
@@ -165,7 +172,13 @@ impl DhtHandler {
                 self.handle_check_bootstrap(tx);
             }
             OneshotTask::StartLookup(lookup) => {
-                self.handle_start_lookup(lookup).await;
+                if self.first_bootstrap_concluded {
+                    self.handle_start_lookup(lookup).await;
+                } else {
+                    // The routing table is still empty: the lookup would end at once with no
+                    // result. Run it when the first bootstrap attempt has concluded.
+                    self.queued_lookups.push(lookup);
+                }
             }
             OneshotTask::GetLocalAddr(tx) => self.handle_get_local_addr(tx),
             OneshotTask::GetState(tx) => self.handle_get_state(tx),
@@ -433,6 +446,28 @@ impl DhtHandler {
 
         // Start the refresh action.
         self.handle_check_table_refresh().await;
+    }
+
+    /// Start the lookups that were requested while the first bootstrap attempt was in progress,
+    /// as soon as it has concluded (successfully or not).
+    async fn handle_first_bootstrap_conclusion(&mut self) {
+        if self.first_bootstrap_concluded {
+            return;
+        }
+
+        let state = *self.bootstrap.state_rx.borrow();
+        if !matches!(
+            state,
+            bootstrap::State::Bootstrapped | bootstrap::State::IdleBeforeRebootstrap
+        ) {
+            return;
+        }
+
+        self.first_bootstrap_concluded = true;
+
+        for lookup in std::mem::take(&mut self.queued_lookups) {
+            self.handle_start_lookup(lookup).await;
+        }
     }
 
     async fn handle_start_lookup(&mut self, lookup: StartLookup) {
